@@ -133,7 +133,7 @@ def build_ir(cfg):
                       '-emit-llvm', '-w'] + cfg.flags() + [s, '-o', o],
         '.ll', src_text=src)
     if rc != 0:
-        raise common.AnalysisBroken('probe TU %s does not compile: %s' % (cfg.name, err[-1500:]))
+        raise common.AnalysisBroken('probe TU %s does not compile: %s' % (cfg.name, err[:1500] + ' ... ' + err[-1500:]))
     opt, rc, err = common.cached_tool(
         ('ir1', cfg.name, os.path.basename(ll)),
         lambda s, o: [common.OPT, '-S', '-passes=function(mem2reg,simplifycfg)', ll, '-o', o],
